@@ -21,6 +21,8 @@ func runExtraEngine(eng *Engine, spec, prop, tier string, seed int, verif, repo 
 		return eng.effectsGlobals(props), nil, nil
 	case "effects:secrecy":
 		return eng.secrecy(props), nil, nil
+	case "bounded:charcore":
+		return runBounded(verif, repo, "charcore", prop, tier, seed, "spg/bounded/charcore")
 	case "bounded:c16":
 		return runBounded(verif, repo, "c16", prop, tier, seed, "spg/bounded/presets")
 	case "ground:c16":
@@ -58,6 +60,15 @@ func runBounded(verif, repo, harness, prop, tier string, seed int, obl string) (
 		return []*Obligation{o}, cov, nil
 	}
 	cov["bounded_standins"] = []interface{}{map[string]interface{}{"harness": harness, "stats": stats, "note": "bounded check by execution of the real code; not counted as proved"}}
+	for _, k := range []string{"evaluations", "distinct_nontrivial", "rule", "samples", "exhaustive"} {
+		if v, ok := stats[k]; ok {
+			if f, isF := v.(float64); isF {
+				cov[k] = int(f)
+			} else {
+				cov[k] = v
+			}
+		}
+	}
 	if len(hits) > 0 {
 		o.Result = "violated"
 		o.Raw = hits[0].Observed
